@@ -367,6 +367,7 @@ static int run_isolated(const uint8_t *data, size_t n, struct verif_report *out,
 		int fd = open(g_errpath, O_RDWR | O_CREAT | O_TRUNC, 0600);
 		int keep2 = dup(2);
 		if (fd >= 0) { dup2(fd, 2); close(fd); }
+		if (!want_log) { int nul = open("/dev/null", O_WRONLY); if (nul >= 0) { dup2(nul, 1); close(nul); } }
 		enter_namespace();
 		verif_init();
 		static struct childres *inner;
